@@ -120,15 +120,34 @@ def generate(targets, report):
                 r_ = t.body_slice(fn.body)
                 full = fn.body
                 fn = _copy.copy(fn)
+                def pure_alias(x):
+                    # ``name = <expression without calls>`` before the verified part: a local alias (e.g. ``zero = self.zero_idx``); executed if it
+                    # can be evaluated in the contract's pre-state, skipped otherwise (an alias the part really needs then shows up as unbound)
+                    return isinstance(x, _ast.Assign) and len(x.targets) == 1 and isinstance(x.targets[0], _ast.Name) and \
+                        not any(isinstance(y, (_ast.Call, _ast.Lambda, _ast.ListComp, _ast.GeneratorExp, _ast.DictComp, _ast.SetComp, _ast.Await, _ast.Yield)) for y in _ast.walk(x.value))
                 if isinstance(r_, list):
                     # a block of statements nested inside the function (e.g. part of a loop body), selected structurally by the contract
+                    first = r_[0] if r_ else None
+                    before = []
+                    for x in full:
+                        if first is not None and any(y is first for y in _ast.walk(x)):
+                            break
+                        before.append(x)
                     helpers = [x for x in full if isinstance(x, _ast.FunctionDef)]
                     part = r_
                 else:
                     a, b_ = r_
+                    before = full[:a]
                     # helper functions defined earlier in the same function stay visible to the phase (a def has no other effect)
                     helpers = [x for x in full[:a] if isinstance(x, _ast.FunctionDef)]
                     part = full[a:b_]
+                aliases = []
+                for x in before:
+                    if pure_alias(x):
+                        y = _copy.copy(x)
+                        y._optional = True
+                        aliases.append(y)
+                helpers = helpers + aliases
                 fn.body = helpers + part
                 if not part:
                     raise ContractError('phase not found')
